@@ -1414,7 +1414,7 @@ func (e *Exec) rangeIter(x Value, t types.Type) iter {
 			kb, okb := x.Keys[order[b]].(string)
 			return oka && okb && ka < kb
 		})
-		if e.permMaps && len(order) > 1 && len(order) <= 4 {
+		if e.permMaps && !x.noPerm && len(order) > 1 && len(order) <= 4 {
 			var perm []int
 			rest := append([]int{}, order...)
 			for len(rest) > 1 {
